@@ -10,23 +10,24 @@ import (
 )
 
 var commands = map[string]func([]string) error{
-	"store":     cmdStore,
-	"crash":     cmdCrash,
-	"e2e":       cmdE2E,
-	"storeop":   cmdStoreOp,
-	"conc":      cmdConc,
-	"smtp":      cmdSMTP,
-	"rest":      cmdRest,
-	"restrace":  cmdRestRace,
-	"sanitize":  cmdSanitize,
-	"pop3":      cmdPOP3,
-	"pop3tls":   cmdPop3Tls,
-	"naming":    cmdNaming,
-	"wild":      cmdWild,
-	"retention": cmdRetention,
-	"lifecycle": cmdLifecycle,
-	"dotcodec":  cmdDotCodec,
-	"hub":       cmdHub,
+	"store":      cmdStore,
+	"crash":      cmdCrash,
+	"e2e":        cmdE2E,
+	"startfault": cmdStartFault,
+	"storeop":    cmdStoreOp,
+	"conc":       cmdConc,
+	"smtp":       cmdSMTP,
+	"rest":       cmdRest,
+	"restrace":   cmdRestRace,
+	"sanitize":   cmdSanitize,
+	"pop3":       cmdPOP3,
+	"pop3tls":    cmdPop3Tls,
+	"naming":     cmdNaming,
+	"wild":       cmdWild,
+	"retention":  cmdRetention,
+	"lifecycle":  cmdLifecycle,
+	"dotcodec":   cmdDotCodec,
+	"hub":        cmdHub,
 }
 
 func main() {
